@@ -524,13 +524,13 @@ structure Inv (pop0 : List Lock) (maxV : Nat) (s e key : Bytes) (st : ResolveOut
   keyGe : Bytes.le s key = true
   prog : ∀ l, Elig pop0 maxV s e l → (∃ b ∈ st.batches, l ∈ b) ∨ (l ∈ st.pop ∧ Bytes.le key l.key = true)
   gone : ∀ b ∈ st.batches, ∀ l ∈ b, l ∉ st.pop
-  only : ∀ l ∈ pop0, l ∉ st.pop → Elig pop0 maxV s e l
+  only : ∀ l ∈ pop0, l ∉ st.pop → (l.ts ≤ maxV ∧ (InRange s e l.key ∨ l.primary = true))
 
 structure Final (pop0 : List Lock) (maxV : Nat) (s e : Bytes) (out : ResolveOut) : Prop where
   all : ∀ l, Elig pop0 maxV s e l → ∃ b ∈ out.batches, l ∈ b
   sub : ∀ l ∈ out.pop, l ∈ pop0
   gone : ∀ b ∈ out.batches, ∀ l ∈ b, l ∉ out.pop
-  only : ∀ l ∈ pop0, l ∉ out.pop → Elig pop0 maxV s e l
+  only : ∀ l ∈ pop0, l ∉ out.pop → (l.ts ≤ maxV ∧ (InRange s e l.key ∨ l.primary = true))
 
 /-- the request end key never leaves `[.., e)` and equals the region end or `e` -/
 theorem reqEnd_cases (e locEnd : Bytes) :
@@ -551,8 +551,59 @@ theorem reqEnd_cases (e locEnd : Bytes) :
     · have := hc he
       exact .inr ⟨this.1, (not_lt_iff_le _ _).mp this.2⟩
 
-theorem resolveLoop_final (layouts : Nat → Layout) (retry : Nat → Bool) (maxV : Nat) (s e : Bytes) (limit : Nat)
-    (pop0 : List Lock) (hkeys : ∀ l ∈ pop0, l.key ≠ [])
+theorem touchedBy_cases {locks : List Lock} {wb : Bool} {l : Lock} (h : touchedBy locks wb l = true) :
+    l ∈ locks ∨ (l.primary = true ∧ ∃ x ∈ locks, x.ts = l.ts) := by
+  simp only [touchedBy, Bool.or_eq_true, Bool.and_eq_true, List.contains_iff_mem, List.any_eq_true,
+    beq_iff_eq] at h
+  rcases h with ⟨_, h⟩ | ⟨h1, h2⟩
+  · exact .inl h
+  · exact .inr ⟨h1, h2⟩
+
+theorem touchedBy_of_mem {locks : List Lock} {l : Lock} (h : l ∈ locks) : touchedBy locks true l = true := by
+  simp [touchedBy, h]
+
+/-- one handled batch keeps the invariant, as long as the cursor does not move past an unresolved lock -/
+theorem resolved_inv {pop0 : List Lock} {maxV : Nat} {s e key key' reqEnd : Bytes} {st : ResolveOut}
+    {locks : List Lock} {limit : Nat} {wb : Bool}
+    (hinv : Inv pop0 maxV s e key st)
+    (hF1 : ∀ l ∈ locks, l ∈ st.pop ∧ Bytes.le key l.key = true ∧ Elig pop0 maxV s e l)
+    (P : Lock → Prop)
+    (hP : ∀ l, Elig pop0 maxV s e l → l ∈ st.pop → Bytes.le key l.key = true →
+      touchedBy locks wb l = false → P l) :
+    let st' := resolved st key' reqEnd locks limit wb
+    Sorted st'.pop ∧ (∀ l ∈ st'.pop, l ∈ pop0) ∧ (∀ b ∈ st'.batches, ∀ l ∈ b, l ∉ st'.pop) ∧
+    (∀ l ∈ pop0, l ∉ st'.pop → (l.ts ≤ maxV ∧ (InRange s e l.key ∨ l.primary = true))) ∧
+    (∀ l, Elig pop0 maxV s e l → (∃ b ∈ st'.batches, l ∈ b) ∨ (l ∈ st'.pop ∧ P l)) := by
+  intro st'
+  have hpop' : ∀ l, l ∈ st'.pop ↔ (l ∈ st.pop ∧ touchedBy locks wb l = false) := by
+    intro l; simp [st', resolved, List.mem_filter]
+  have hbat' : ∀ b, b ∈ st'.batches ↔ (b ∈ st.batches ∨ b = st.pop.filter (touchedBy locks wb)) := by
+    intro b; simp [st', resolved]
+  refine ⟨List.Pairwise.filter _ hinv.sorted, fun l hl => hinv.sub l ((hpop' l).mp hl).1, ?_, ?_, ?_⟩
+  · intro b hb l hl hp
+    rcases (hbat' b).mp hb with h | h
+    · exact hinv.gone b h l hl ((hpop' l).mp hp).1
+    · subst h
+      have := (List.mem_filter.mp hl).2
+      rw [((hpop' l).mp hp).2] at this; cases this
+  · intro l hl hn
+    by_cases hp : l ∈ st.pop
+    · cases ht : touchedBy locks wb l with
+      | false => exact absurd ((hpop' l).mpr ⟨hp, ht⟩) hn
+      | true =>
+        rcases touchedBy_cases ht with hk | ⟨hpr, x, hx, hxt⟩
+        · have := (hF1 l hk).2.2; exact ⟨this.2.1, .inl this.2.2⟩
+        · have := (hF1 x hx).2.2; exact ⟨by rw [← hxt]; exact this.2.1, .inr hpr⟩
+    · exact hinv.only l hl hp
+  · intro l hl
+    rcases hinv.prog l hl with ⟨b, hb, hlb⟩ | ⟨hp, hk⟩
+    · exact .inl ⟨b, (hbat' b).mpr (.inl hb), hlb⟩
+    · cases ht : touchedBy locks wb l with
+      | true => exact .inl ⟨_, (hbat' _).mpr (.inr rfl), List.mem_filter.mpr ⟨hp, ht⟩⟩
+      | false => exact .inr ⟨(hpop' l).mpr ⟨hp, ht⟩, hP l hl hp hk ht⟩
+
+theorem resolveLoop_final (layouts : Nat → Layout) (retry : Nat → Bytes → List Lock → Bool) (maxV : Nat) (s e : Bytes)
+    (limit : Nat) (pop0 : List Lock) (hkeys : ∀ l ∈ pop0, l.key ≠ [])
     (fuel i : Nat) (key : Bytes) (st out : ResolveOut)
     (hinv : Inv pop0 maxV s e key st)
     (hrun : resolveLoop layouts retry maxV e limit fuel i key st = some out) : Final pop0 maxV s e out := by
@@ -564,61 +615,31 @@ theorem resolveLoop_final (layouts : Nat → Layout) (retry : Nat → Bool) (max
     have hcases := reqEnd_cases e locEnd
     generalize hreqEnd : reqEndOf e locEnd = reqEnd at hrun hcases
     generalize hlocks : scan st.pop maxV key reqEnd limit = locks at hrun
-    split at hrun
-    · -- re-scan
-      refine ih _ _ _ ?_ hrun
-      exact ⟨hinv.sorted, hinv.sub, hinv.keyGe, hinv.prog, hinv.gone, hinv.only⟩
-    · -- facts about the batch
-      have hF1 : ∀ l ∈ locks, l ∈ st.pop ∧ Bytes.le key l.key = true ∧ Elig pop0 maxV s e l := by
-        intro l hl
-        rw [← hlocks] at hl
-        obtain ⟨hp, he⟩ := mem_scan hl
-        rw [eligible_iff] at he
-        obtain ⟨⟨h1, h2⟩, h3⟩ := he
-        refine ⟨hp, h1, hinv.sub l hp, h3, le_trans hinv.keyGe h1, ?_⟩
-        rcases hcases with ⟨hr, hne⟩ | ⟨hr, hb⟩
+    -- facts about the batch
+    have hF1 : ∀ l ∈ locks, l ∈ st.pop ∧ Bytes.le key l.key = true ∧ Elig pop0 maxV s e l := by
+      intro l hl
+      rw [← hlocks] at hl
+      obtain ⟨hp, he⟩ := mem_scan hl
+      rw [eligible_iff] at he
+      obtain ⟨⟨h1, h2⟩, h3⟩ := he
+      refine ⟨hp, h1, hinv.sub l hp, h3, le_trans hinv.keyGe h1, ?_⟩
+      rcases hcases with ⟨hr, hne⟩ | ⟨hr, hb⟩
+      · rw [hr] at h2
+        rcases h2 with h2 | h2
+        · exact absurd h2 hne
+        · exact .inr h2
+      · rcases hb with hb | ⟨hb1, hb2⟩
+        · exact .inl hb
         · rw [hr] at h2
           rcases h2 with h2 | h2
-          · exact absurd h2 hne
-          · exact .inr h2
-        · rcases hb with hb | ⟨hb1, hb2⟩
-          · exact .inl hb
-          · rw [hr] at h2
-            rcases h2 with h2 | h2
-            · exact absurd h2 hb1
-            · exact .inr (lt_of_lt_of_le h2 hb2)
-      -- the new state
-      generalize hst' : resolved st key reqEnd locks limit = st' at hrun
-      have hpop' : ∀ l, l ∈ st'.pop ↔ (l ∈ st.pop ∧ l ∉ locks) := by
-        intro l; subst hst'; simp [resolved, List.mem_filter]
-      have hbat' : ∀ b, b ∈ st'.batches ↔ (b ∈ st.batches ∨ b = locks) := by
-        intro b; subst hst'; simp [resolved]
-      have hsorted' : Sorted st'.pop := by
-        subst hst'; exact List.Pairwise.filter _ hinv.sorted
-      have hsub' : ∀ l ∈ st'.pop, l ∈ pop0 := fun l hl => hinv.sub l ((hpop' l).mp hl).1
-      have hgone' : ∀ b ∈ st'.batches, ∀ l ∈ b, l ∉ st'.pop := by
-        intro b hb l hl hp
-        rcases (hbat' b).mp hb with h | h
-        · exact hinv.gone b h l hl ((hpop' l).mp hp).1
-        · subst h; exact ((hpop' l).mp hp).2 hl
-      have honly' : ∀ l ∈ pop0, l ∉ st'.pop → Elig pop0 maxV s e l := by
-        intro l hl hn
-        by_cases hp : l ∈ st.pop
-        · by_cases hk : l ∈ locks
-          · exact (hF1 l hk).2.2
-          · exact absurd ((hpop' l).mpr ⟨hp, hk⟩) hn
-        · exact hinv.only l hl hp
-      -- progress: where the locks not yet resolved are
-      have hprog' : ∀ (P : Lock → Prop),
-          (∀ l, Elig pop0 maxV s e l → l ∈ st.pop → Bytes.le key l.key = true → l ∉ locks → P l) →
-          ∀ l, Elig pop0 maxV s e l → (∃ b ∈ st'.batches, l ∈ b) ∨ (l ∈ st'.pop ∧ P l) := by
-        intro P hP l hl
-        rcases hinv.prog l hl with ⟨b, hb, hlb⟩ | ⟨hp, hk⟩
-        · exact .inl ⟨b, (hbat' b).mpr (.inl hb), hlb⟩
-        · by_cases hin : l ∈ locks
-          · exact .inl ⟨locks, (hbat' locks).mpr (.inr rfl), hin⟩
-          · exact .inr ⟨(hpop' l).mpr ⟨hp, hin⟩, hP l hl hp hk hin⟩
-      -- a lock left out of the batch is eligible for the request unless it lies behind the request end
+          · exact absurd h2 hb1
+          · exact .inr (lt_of_lt_of_le h2 hb2)
+    split at hrun
+    · -- nil location: scan again from the same key
+      obtain ⟨h1, h2, h3, h4, h5⟩ := resolved_inv (key' := key) (reqEnd := reqEnd) (limit := limit) (wb := false)
+        hinv hF1 (fun l => Bytes.le key l.key = true) (fun l _ _ hk _ => hk)
+      exact ih _ _ _ ⟨h1, h2, hinv.keyGe, h5, h3, h4⟩ hrun
+    · -- a lock left out of the batch is eligible for the request unless it lies behind the request end
       have hbehind : ∀ l, Elig pop0 maxV s e l → Bytes.le key l.key = true →
           eligible maxV key reqEnd l = true ∨ (reqEnd = locEnd ∧ locEnd ≠ [] ∧ Bytes.le locEnd l.key = true) := by
         intro l hl hk
@@ -636,30 +657,34 @@ theorem resolveLoop_final (layouts : Nat → Layout) (retry : Nat → Bool) (max
             · exact hne h
             · have := lt_of_le_of_lt hge h; simp [lt_irrefl] at this
           · exact ⟨hr, by rw [← hr]; exact hnr.1, by rw [← hr]; exact hge⟩
+      have hnotin : ∀ l, touchedBy locks true l = false → l ∉ locks := by
+        intro l ht hl; rw [touchedBy_of_mem hl] at ht; cases ht
       by_cases hlen : locks.length < limit
       · -- region finished: continue at the region end
         simp only [hlen, if_true] at hrun
-        have hafter : ∀ l, Elig pop0 maxV s e l → l ∈ st.pop → Bytes.le key l.key = true → l ∉ locks →
-            (locEnd ≠ [] ∧ Bytes.le locEnd l.key = true) := by
-          intro l hl hp hk hn
+        have hafter : ∀ l, Elig pop0 maxV s e l → l ∈ st.pop → Bytes.le key l.key = true →
+            touchedBy locks true l = false → (locEnd ≠ [] ∧ Bytes.le locEnd l.key = true) := by
+          intro l hl hp hk ht
           rcases hbehind l hl hk with h | ⟨_, h2, h3⟩
-          · exfalso; apply hn; rw [← hlocks]; rw [← hlocks] at hlen; exact scan_complete hlen hp h
+          · exfalso; apply hnotin l ht; rw [← hlocks]; rw [← hlocks] at hlen; exact scan_complete hlen hp h
           · exact ⟨h2, h3⟩
+        obtain ⟨h1, h2, h3, h4, h5⟩ := resolved_inv (key' := key) (reqEnd := reqEnd) (limit := limit) (wb := true)
+          hinv hF1 _ hafter
         split at hrun
         · rename_i hstop
           simp at hrun; subst hrun
-          refine ⟨?_, hsub', hgone', honly'⟩
+          refine ⟨?_, h2, h3, h4⟩
           intro l hl
-          rcases hprog' _ hafter l hl with h | ⟨_, h1, h2⟩
+          rcases h5 l hl with h | ⟨_, h6, h7⟩
           · exact h
           · exfalso
             simp only [Bool.or_eq_true, List.isEmpty_iff, Bool.and_eq_true, Bool.not_eq_true',
               List.isEmpty_eq_false_iff] at hstop
             rcases hstop with h | ⟨hne, hge⟩
-            · exact h1 h
+            · exact h6 h
             · rcases hl.2.2.2 with h | h
               · exact hne h
-              · have := lt_of_le_of_lt (le_trans ((geB_iff _ _).mp hge) h2) h
+              · have := lt_of_le_of_lt (le_trans ((geB_iff _ _).mp hge) h7) h
                 simp [lt_irrefl] at this
         · rename_i hcont
           simp only [Bool.or_eq_true, List.isEmpty_iff, not_or] at hcont
@@ -667,11 +692,11 @@ theorem resolveLoop_final (layouts : Nat → Layout) (retry : Nat → Bool) (max
             rcases regionEnd_gt (layouts i) key with h | h
             · rw [hlocEnd] at h; exact absurd h hcont.1
             · rw [hlocEnd] at h; exact h
-          refine ih _ _ _ ⟨hsorted', hsub', le_trans hinv.keyGe (le_of_lt hkl), ?_, hgone', honly'⟩ hrun
+          refine ih _ _ _ ⟨h1, h2, le_trans hinv.keyGe (le_of_lt hkl), ?_, h3, h4⟩ hrun
           intro l hl
-          rcases hprog' _ hafter l hl with h | ⟨h0, _, h2⟩
+          rcases h5 l hl with h | ⟨h0, _, h7⟩
           · exact .inl h
-          · exact .inr ⟨h0, h2⟩
+          · exact .inr ⟨h0, h7⟩
       · -- limit hit: continue from the last lock
         simp only [hlen, if_false] at hrun
         cases hlast : locks.getLast? with
@@ -679,9 +704,10 @@ theorem resolveLoop_final (layouts : Nat → Layout) (retry : Nat → Bool) (max
         | some last =>
           simp only [hlast] at hrun
           have hlm : last ∈ locks := List.mem_of_getLast? hlast
-          have hafter : ∀ l, Elig pop0 maxV s e l → l ∈ st.pop → Bytes.le key l.key = true → l ∉ locks →
-              Bytes.le last.key l.key = true := by
-            intro l hl hp hk hn
+          have hafter : ∀ l, Elig pop0 maxV s e l → l ∈ st.pop → Bytes.le key l.key = true →
+              touchedBy locks true l = false → Bytes.le last.key l.key = true := by
+            intro l hl hp hk ht
+            have hn := hnotin l ht
             rcases hbehind l hl hk with h | ⟨hr, h2, h3⟩
             · rw [← hlocks] at hlast hn
               exact le_of_lt (scan_prefix hinv.sorted hlast hp h hn)
@@ -691,6 +717,8 @@ theorem resolveLoop_final (layouts : Nat → Layout) (retry : Nat → Bool) (max
               rcases this.1.2 with h | h
               · rw [hr] at h; exact absurd h h2
               · rw [hr] at h; exact le_of_lt (lt_of_lt_of_le h h3)
+          obtain ⟨h1, h2, h3, h4, h5⟩ := resolved_inv (key' := key) (reqEnd := reqEnd) (limit := limit) (wb := true)
+            hinv hF1 _ hafter
           have hlastE := (hF1 last hlm)
           split at hrun
           · rename_i hstop
@@ -703,14 +731,11 @@ theorem resolveLoop_final (layouts : Nat → Layout) (retry : Nat → Bool) (max
               · exact hne h
               · have := lt_of_le_of_lt ((geB_iff _ _).mp hge) h
                 simp [lt_irrefl] at this
-          · refine ih _ _ _ ⟨hsorted', hsub', le_trans hinv.keyGe hlastE.2.1, ?_, hgone', honly'⟩ hrun
-            intro l hl
-            exact hprog' _ hafter l hl
+          · exact ih _ _ _ ⟨h1, h2, le_trans hinv.keyGe hlastE.2.1, h5, h3, h4⟩ hrun
 
 theorem inv_init (pop0 : List Lock) (hs : Sorted pop0) (maxV : Nat) (s e : Bytes) :
     Inv pop0 maxV s e s ⟨[], pop0, [], 0⟩ :=
   ⟨hs, fun _ h => h, le_refl s, fun l hl => .inr ⟨hl.1, hl.2.2.1⟩, by simp, fun l hl hn => absurd hl hn⟩
-
 
 /-! ## termination under a layout that no longer changes -/
 
